@@ -23,8 +23,8 @@ Definition rd_read (r : rd) (free : nat) : outcome (bytes * rd) :=
   match ev with
   | Fail => Err E_Io
   | Data n =>
-      let lim := Nat.min free (length (rest r)) in
-      let k := N.to_nat (N.min (N.max n 1) (N.of_nat lim)) in
+      (* = min (max n 1) (min free |rest|), computed in N so that extraction never builds a huge nat *)
+      let k := N.to_nat (N.min (N.max n 1) (N.of_nat (Nat.min free (length (rest r))))) in
       Ok (firstn k (rest r), mkrd (skipn k (rest r)) sch (S (calls r)) (delivered r + k))
   end.
 (* the schedule advances on a failed call as well *)
@@ -50,9 +50,7 @@ Inductive fill_res :=
 
 Definition bw_fill_buf (b : bufwin) (r : rd) : fill_res :=
   let carry := length (win b) in
-  if Nat.leb (cap b) carry then
-    (* a slice-backed window (no buffer) is at the end of its data; otherwise the buffer is full *)
-    if Nat.eqb (cap b) 0 then FillOk 0 b r else FillFull b r
+  if Nat.leb (cap b) carry then (if Nat.eqb (cap b) 0 then FillOk 0 b r else FillFull b r)
   else
     let b1 := mkbw (cap b) (win b) 0 (prior b + consumed b) in
     match rd_read r (cap b - carry) with
